@@ -409,15 +409,17 @@ structure Params where
   actualBoundaries : Bool
   deriving DecidableEq, Repr, Inhabited
 
-/-- what lies outside the model: for a geometry `g : G` (projection data + image grid) and parameters,
-    the symmetries object the constructor builds, the ray tracer, and the bit-field guard -/
+/-- what lies outside the model: for a geometry `g : G` and parameters, the symmetries object the constructor
+    builds, the ray tracer, and the bit-field guard.
+
+    A geometry `g : G` stands for exactly what `ProjMatrixByBinUsingRayTracing::set_up` stores and compares:
+    the projection data info, and voxel size, origin and index range of the image (`VoxelsOnCartesianGrid`) — the
+    property's "data geometry and image grid".  Equality on `G` is the conjunction of the four comparisons
+    of `set_up` (`*proj_data_info_sptr == …`, `voxel_size == …`, `origin == …`, `min_index/max_index == …`). -/
 structure World (G α : Type) where
   symOf : G → Params → Sym
   compute : G → Params → Bin → Option (List (Vox × α))     -- `none`: `error()` inside the ray tracer
   fits : G → Bool
-  /-- the first comparison of `ProjMatrixByBinUsingRayTracing::set_up`: equal projection data info, voxel size
-      and origin (the index range of the image is *not* part of it) -/
-  sameDataVoxelOrigin : G → G → Bool
 
 /-- state of the matrix object -/
 structure PM (G α : Type) where
@@ -490,16 +492,16 @@ inductive Ev (G : Type)
 
 /-- `ProjMatrixByBinUsingRayTracing::set_up` followed (inside) by `ProjMatrixByBin::set_up`;
     the early return, the bit-field guard, `cache_collection.recycle()` / `clear_cache()`.
-    As in the source (ProjMatrixByBinUsingRayTracing.cxx:217-231) the early `return` is taken as soon as projection
-    data, voxel size and origin agree — the comparison of the index ranges only decides whether an info message is
-    printed. -/
-def PM.setUp (w : World G α) (s : PM G α) (g : G) : Except Err (PM G α) :=
-  if s.alreadySetup && (match s.active with | some (g', _) => w.sameDataVoxelOrigin g' g | none => false) then .ok s
+    (ProjMatrixByBinUsingRayTracing.cxx:249-263, after the repair "set_up is skipped only if the index range of the
+    image is unchanged as well": the early `return` is taken iff the object is set up for the current parameters and
+    projection data, voxel size, origin **and** index range all agree, i.e. iff the geometry is the same.) -/
+def PM.setUp [DecidableEq G] (w : World G α) (s : PM G α) (g : G) : Except Err (PM G α) :=
+  if s.alreadySetup && (match s.active with | some (g', _) => decide (g' = g) | none => false) then .ok s
   else if !s.cacheDisabled && !w.fits g then .error .keyBits
   else .ok { s with active := some (g, s.params), cache := [], alreadySetup := true }
 
 /-- one event; `get` also yields the row -/
-def PM.step (w : World G α) (s : PM G α) : Ev G → Except Err (PM G α × Option (Row α))
+def PM.step [DecidableEq G] (w : World G α) (s : PM G α) : Ev G → Except Err (PM G α × Option (Row α))
   | .get b => (s.get w b).map fun (s', r) => (s', some r)
   | .clearCache => .ok ({ s with cache := [] }, none)
   | .enableCache v => .ok ({ s with cacheDisabled := !v }, none)
@@ -510,7 +512,7 @@ def PM.step (w : World G α) (s : PM G α) : Ev G → Except Err (PM G α × Opt
 /-- run a history on a matrix object; it ends at the first `error()` (an exception leaves the object in no defined
     state).  For every successful `get` it records the bin, the configuration (geometry, parameters) that the last
     successful `set_up` call *asked for*, and the returned row. -/
-def PM.run (w : World G α) : PM G α → Option (G × Params) → List (Ev G) → List (Bin × Option (G × Params) × Row α)
+def PM.run [DecidableEq G] (w : World G α) : PM G α → Option (G × Params) → List (Ev G) → List (Bin × Option (G × Params) × Row α)
   | _, _, [] => []
   | s, cfg, ev :: rest =>
     match s.step w ev with
